@@ -39,13 +39,18 @@ func (n *c01Node) FetchBlockByHeight(height uint64) (*wire.MsgBlock, error) {
 // launches the follower and the worker, or - when a node request or a database call fails - stops with an error
 // at a block boundary: every block before the failure is fully recorded, none after it, no goroutine is
 // launched; starting again then completes, and the end state is the same as without the failure.
-func VerifC06CatchUp() {
+func VerifC06CatchUp() { c06CatchUp(2, 3) }
+
+// deeper: stale branch up to 3 blocks, node up to 5 blocks ahead
+func VerifC06CatchUpDeep() { c06CatchUp(3, 5) }
+
+func c06CatchUp(maxA, maxB int) {
 	st := txmgr.VerifNewStoresWithKeystoreManager([]byte("DJr6BomK"))
 	node := &c01Node{}
 	w := &WalletManager{config: &config.Config{Wallet: config.NewDefWalletConfig()}, db: st.DB, chainParams: config.ChainParams,
 		ksmgr: st.Ks, bucketMeta: st.Meta, utxoStore: st.Utxo, txStore: st.Tx, syncStore: st.Sync, chainFetcher: node}
 	c01HdrReg, c01HdrIDs, c01IDSeeds = nil, nil, nil
-	for i := 0; i < 7; i++ {
+	for i := 0; i < 2+maxA+maxB; i++ {
 		var id wire.Hash
 		copy(id[:], rt.NondetBytes(32))
 		for _, o := range c01IDSeeds {
@@ -55,10 +60,10 @@ func VerifC06CatchUp() {
 	}
 	H := rt.NondetU64()
 	rt.Assume(H >= 2 && H < 1<<56)
-	b := rt.NondetLen(0, 3)
+	b := rt.NondetLen(0, maxB)
 	// the store may have been left on a branch the node has since abandoned: a = 0..2 stale blocks above A
 	// (the catch-up then has to walk back before it can connect; only when the node's branch is longer)
-	a := rt.NondetLen(0, 2)
+	a := rt.NondetLen(0, maxA)
 	rt.Assume(a == 0 || b > a)
 	P := c01Block(H-1, wire.Hash{}, 10)
 	A := c01Block(H, P.BlockHash(), 11)
